@@ -154,7 +154,7 @@ def analyse(ses, rep, prefix="overrides"):
         ex = ses.executor("bin", "default", inline=lambda n_, fn: fn.name.startswith("config::<impl") and "{closure" not in fn.name
                           and fn.name.split("::")[-1] not in VERIFIED + ("new", "get_configuration_search_root"))
         ex.hooks = [clihooks.silence_logging, clihooks.context_passthrough]
-        ex.max_block_visits = 1
+        ex.max_block_visits = 3        # loops over candidate locations: two rounds and the exit
         args = lazy_args(ex, f)
         selfobj = None
         if f.params and "ConfigResolver" in f.params[0][1]:
@@ -184,6 +184,20 @@ def analyse(ses, rep, prefix="overrides"):
                 if t[0] == "havoc" and t[1].split("::")[-1] == "insert" and "HashMap" in t[1] and len(t) > 4 and len(t[4]) == 3:
                     if O.self_field_of(deref_val(ex, o.state, t[4][0])):
                         checks.append(("cache-insert", t[4][2]))
+            # a configuration error is never swallowed: if a configuration-producing callee failed on this path, so does the function
+            if short != "new":
+                failed = []
+                for t in o.trace:
+                    if t[0] == "havoc" and t[1].split("::")[-1] in VERIFIED + ("read_config_file",) and isinstance(t[3], (Lazy, Agg)) \
+                            and "Result" in (getattr(t[3], "ty", "") or ""):
+                        failed.append(ex.discr(o.state, t[3]) == 1)
+                returns_err = isinstance(v, Agg) and v.variant == "Err"
+                if failed and not returns_err and not (isinstance(v, Lazy)):
+                    r, m = ses.obligation(f"{prefix}/{short}/path{pi}/configuration-errors-propagate", list(o.pc), z3.Or(*failed),
+                                          "Ok is returned only if every configuration lookup on the path succeeded")
+                    if r == "sat":
+                        flagged.append((f"{prefix}/{short}/path{pi}/configuration-errors-propagate", f"{short} carries on after a configuration file failed to load (a malformed file is silently skipped)",
+                                        "config-error", {"function": short, "origin": "error"}))
             for what, val in checks:
                 n += 1
                 ok, desc = (False, "the resolver is not built field by field") if val is None else O.of(val)
@@ -226,10 +240,34 @@ def scenarios():
     return sc
 
 
+def malformed_scenarios():
+    from . import clireplay
+    src = "local   x   =   1\n"
+    bad = "colum_width = 80\n"
+
+    def oracle(rel):
+        def f(r):
+            if r["rc"] != 2:
+                return f"exit status {r['rc']}, not 2, although a configuration file on the search route is malformed"
+            if clireplay.changed(r, rel, True):
+                return f"{rel} was rewritten although a configuration file on the search route is malformed"
+            return None
+        return f
+    return [
+        ("bad-cwd-config", {"stylua.toml": bad, "a.lua": src}, {}, ["a.lua"], oracle("a.lua")),
+        ("bad-parent-config", {"stylua.toml": bad, "sub/a.lua": src}, {}, ["sub/a.lua"], oracle("sub/a.lua")),
+        ("bad-config-path", {"cfg/my.toml": bad, "a.lua": src}, {}, ["--config-path", "cfg/my.toml", "a.lua"], oracle("a.lua")),
+        ("bad-xdg-config", {".xdg/stylua.toml": bad, "proj/a.lua": src}, {}, ["--search-parent-directories", "proj/a.lua"], oracle("proj/a.lua")),
+        ("bad-xdg-stylua-config", {".xdg/stylua/stylua.toml": bad, "proj/a.lua": src}, {}, ["--search-parent-directories", "proj/a.lua"], oracle("proj/a.lua")),
+        ("bad-home-config", {".config/stylua.toml": bad, "proj/a.lua": src}, {"XDG_CONFIG_HOME": "/nonexistent-xdg"}, ["--search-parent-directories", "proj/a.lua"], oracle("proj/a.lua")),
+        ("bad-home-stylua-config", {".config/stylua/.stylua.toml": bad, "proj/a.lua": src}, {"XDG_CONFIG_HOME": "/nonexistent-xdg"}, ["--search-parent-directories", "proj/a.lua"], oracle("proj/a.lua")),
+    ]
+
+
 def battery(binp):
     from . import clireplay
     fails = []
-    for name, files, env, argv, oracle in scenarios():
+    for name, files, env, argv, oracle in scenarios() + malformed_scenarios():
         r = clireplay.run_cli(binp, files, argv, env=env or None)
         v = oracle(r)
         if v:
@@ -252,6 +290,8 @@ def confirm(rep, flagged, prop):
     fails = battery(common.native_build("default"))
     for oid, what, kind, info in flagged:
         names = ORIGIN_SCENARIOS.get(info["function"], [])
+        if kind == "config-error":
+            names = [n_[0] for n_ in malformed_scenarios()]
         hit = [f for f in fails if f[0] in names] or ([] if names else fails)
         if hit:
             name, v, rec = hit[0]
